@@ -88,6 +88,9 @@ def _add_strings(context, nodes, add_slash=False):
     string = ''
     first = True
     for child_node in nodes:
+        if child_node.type == 'argument':
+            # `*args`, `key=value` or a generator, there is no single string.
+            return None
         values = context.infer_node(child_node)
         if len(values) != 1:
             return None
